@@ -147,21 +147,22 @@ def unique(vals):
     return out
 
 
-def gen_conf(rng, a, size=3):
-    """a value constructed to conform to annotation a (None if this generator cannot build one)"""
+def gen_conf(rng, a, size=3, ctx=None):
+    """a value constructed to conform to annotation a (None if this generator cannot build one); ctx: the namespace
+    [[n, class], ...] the forward references are read in (default CTX)"""
     k = a[0]
     n = lambda: rng.choice([0, 1, 2, size])
     if k == 'none': return ['none']
     if k == 'cls': return gen_of_cls(rng, a[1])
     if k == 'any': return rng.choice(SCALARS + CONTAINERS)
-    if k == 'union': return gen_conf(rng, rng.choice(a[2]), size)
+    if k == 'union': return gen_conf(rng, rng.choice(a[2]), size, ctx)
     if k == 'lit': return rng.choice(a[1])
-    if k == 'newtype': return gen_conf(rng, a[1], size)
+    if k == 'newtype': return gen_conf(rng, a[1], size, ctx)
     if k in ('fwd', 'str'):
-        c = dict((x, y) for x, y in CTX)[a[1]]
+        c = dict((x, y) for x, y in (ctx or CTX))[a[1]]
         return gen_of_cls(rng, c)
     if k == 'tuplevar':
-        return ['tuple', [gen_conf(rng, a[2], size) for _ in range(n())]]
+        return ['tuple', [gen_conf(rng, a[2], size, ctx) for _ in range(n())]]
     if k == 'tupleempty':
         return ['tuple', []]
     if k == 'callable':
@@ -172,7 +173,7 @@ def gen_conf(rng, a, size=3):
     if k == 'gen':
         o, args = a[2], a[3]
         if o == 'Tuple':
-            return ['tuple', [gen_conf(rng, x, size) for x in args]]
+            return ['tuple', [gen_conf(rng, x, size, ctx) for x in args]]
         if o == 'Type':
             c = args[0]
             if c[0] == 'any': return rng.choice([['class', 'int'], ['class', ['user', [1]]]])
@@ -181,11 +182,11 @@ def gen_conf(rng, a, size=3):
         if o in MAP_ORIGINS_T:
             kind = {'Dict': ['dict', 'defaultdict', 'ordereddict'], 'DefaultDict': ['defaultdict'],
                     'Mapping': ['dict', 'ordereddict', 'defaultdict'], 'MutableMapping': ['dict', 'defaultdict']}[o]
-            ks = [x for x in unique([gen_conf(rng, args[0], size) for _ in range(n())]) if is_hashable(x)]
-            return [rng.choice(kind), [[x, gen_conf(rng, args[1], size)] for x in ks]]
+            ks = [x for x in unique([gen_conf(rng, args[0], size, ctx) for _ in range(n())]) if is_hashable(x)]
+            return [rng.choice(kind), [[x, gen_conf(rng, args[1], size, ctx)] for x in ks]]
         if o == 'ItemsView':
-            ks = [x for x in unique([gen_conf(rng, args[0], size) for _ in range(n())]) if is_hashable(x)]
-            return ['items', [[x, gen_conf(rng, args[1], size)] for x in ks]]
+            ks = [x for x in unique([gen_conf(rng, args[0], size, ctx) for _ in range(n())]) if is_hashable(x)]
+            return ['items', [[x, gen_conf(rng, args[1], size, ctx)] for x in ks]]
         conts = {'List': ['list'], 'Set': ['set'], 'FrozenSet': ['frozenset'], 'Deque': ['deque'],
                  'Iterable': ['list', 'tuple', 'set', 'deque', 'iter', 'dict', 'keys', 'values', 'frozenset'],
                  'Collection': ['list', 'tuple', 'set', 'deque', 'dict', 'frozenset', 'values'],
@@ -194,7 +195,7 @@ def gen_conf(rng, a, size=3):
                  'AbstractSet': ['set', 'frozenset', 'keys'], 'MutableSet': ['set'], 'KeysView': ['keys'], 'ValuesView': ['values']}[o]
         c = rng.choice(conts)
         hashable_needed = c in ('set', 'frozenset', 'keys', 'dict')
-        elems = [gen_conf(rng, args[0], size) for _ in range(n())]
+        elems = [gen_conf(rng, args[0], size, ctx) for _ in range(n())]
         if hashable_needed:
             elems = unique([e for e in elems if is_hashable(e)])
         if c == 'dict':
@@ -355,3 +356,152 @@ def to_abc(rng, a):
         return x
     r = go(a)
     return r if hit[0] else None
+
+
+# ------------------------------------------------------------------------------------------ input dimensions beyond (annotation, value)
+# The verdict asked for by C01 / C02 / C06 / C08 is a function of the annotation, the value and the context handed to the
+# checker - of nothing else.  The generators below vary what must NOT matter: state that somebody else left on the typing
+# objects of the annotation, the history of earlier calls of the same decorated function, the NAME and the attribute
+# annotations of a user class, the thread the call is made from.  The abstract case (annotation, final value, context) is what
+# the model and the specification see; the extra keys only steer the implementation worker.
+
+def has_kind(a, kind):
+    if not isinstance(a, list):
+        return False
+    if a and a[0] == kind:
+        return True
+    return any(has_kind(x, kind) for x in a if isinstance(x, list))
+
+
+def has_user_cls(a):
+    return has_kind(a, 'user') or has_kind(a, 'fwd')
+
+
+ALT_CLASSES = [['user', [0]], ['user', [1]], ['user', [2]], ['user', [0, 1]], 'int', 'str']
+
+
+def gen_alt_ctx(rng):
+    """another namespace for the names of CTX: every name bound to some OTHER class"""
+    return [[n, rng.choice([c for c in ALT_CLASSES if c != cls])] for n, cls in CTX]
+
+
+def gen_with(rng, d, pred, tries=60):
+    for _ in range(tries):
+        a = gen_ann(rng, d)
+        if pred(a):
+            return a
+    return None
+
+
+def gen_fwd_state(rng, d):
+    """(annotation with a forward reference below a generic / union, value conforming in CTX, namespace `alt`, value
+    conforming when the references are read in `alt`): typing evaluates the ForwardRef objects of the annotation in `alt`
+    (typing.get_type_hints of unrelated code) before the check is made with CTX"""
+    a = gen_with(rng, d, lambda x: has_kind(x, 'fwd'))
+    if a is None:
+        return None
+    alt = gen_alt_ctx(rng)
+    return a, gen_conf(rng, a), alt, gen_conf(rng, a, ctx=alt)
+
+
+MUTABLE_KINDS = ('list', 'set', 'dict', 'defaultdict', 'ordereddict', 'deque')
+
+
+def gen_default_history(rng, d):
+    """(annotation, conforming value v, corrupted value w) with v and w mutable containers of one kind: the default object of
+    a parameter, changed IN PLACE between two calls that leave the parameter out"""
+    for _ in range(60):
+        a = gen_ann(rng, max(1, d))
+        if a[0] != 'gen':
+            continue
+        v = gen_conf(rng, a)
+        if v is None or v[0] not in MUTABLE_KINDS or has_kind(v, 'iter'):
+            continue
+        for _ in range(6):
+            w = corrupt(rng, a, v)
+            if w is not None and w[0] == v[0] and w != v and not has_kind(w, 'iter'):
+                return a, v, w
+    return None
+
+
+# A user class is identified by what it IS, not by how it is called: class Collection / Mapping / Deque / Text / Counter ...
+# written by a user are ordinary classes.  Names: every public name of typing, collections, collections.abc and the builtin
+# type names.
+# DEFECT of the library at 4311a8e (finding K-C02-class-name, confirmed; repair pending): a plain class whose __name__ is a key of
+# NUM_OF_REQUIRED_TYPE_ARGS_EXACT / _MIN (Callable Dict FrozenSet Iterable List Optional Sequence Set Tuple Union) is rejected
+# for every instance ("misses some type arguments": _has_required_type_arguments looks the table up by _get_name(), which is
+# cls.__name__ for a plain class), and a class called `name` is taken for a NewType (_is_type_new_type compares __qualname__
+# with NewType('name', int).__qualname__).  These names are generated exactly when the translator found the repaired shape of
+# the respective function (flags plain_class_complete / newtype_test_by_class of Gen/CheckerTables.v).
+ARITY_TABLE_NAMES = ['Callable', 'Dict', 'FrozenSet', 'Iterable', 'List', 'Optional', 'Sequence', 'Set', 'Tuple', 'Union']
+NEWTYPE_PROBE_NAME = 'name'
+
+
+def class_names(flags=None):
+    import typing, collections, collections.abc, keyword
+    flags = flags or {}
+    names = set()
+    for m in (typing, collections, collections.abc):
+        names |= {n for n in dir(m) if not n.startswith('_') and n.isidentifier() and not keyword.iskeyword(n) and n[0].isupper()}
+    names |= {'list', 'dict', 'set', 'frozenset', 'tuple', 'type', 'int', 'str', 'object', 'deque', 'defaultdict', 'T', 'NoneType', 'function'}
+    names -= set(ARITY_TABLE_NAMES) | {NEWTYPE_PROBE_NAME}
+    hot = (ARITY_TABLE_NAMES if flags.get('plain_class_complete') else []) + ([NEWTYPE_PROBE_NAME] if flags.get('newtype_test_by_class') else [])
+    # the names a table of the checker is keyed by are drawn as often as all the others together
+    return sorted(names) + hot * max(1, len(names) // max(1, len(hot))) if hot else sorted(names)
+
+
+# attribute annotations a plain class may carry (the check of a value against the CLASS is isinstance, whatever they say):
+# resolvable, given as strings (from __future__ import annotations), naming something imported under TYPE_CHECKING only,
+# naming the class itself, ForwardRef objects, things that are no types at all
+ATTR_ANNS = [['t', 'int'], ['t', 'list_int'], ['t', 'optional_str'], ['s', 'int'], ['s', 'NoSuchName'], ['s', 'Optional[Decimal]'],
+             ['s', 'List[NoSuchName]'], ['s', 'self'], ['f', 'NoSuchName'], ['f', 'self'], ['o', 5], ['s', 'not an expression (']]
+USER_PATHS = [[0], [0, 1], [1], [0, 1, 0], [2]]
+
+
+def user_paths(*terms):
+    """the user classes an annotation / value mentions (forward references through CTX), with their ancestors"""
+    out = []
+
+    def add(p):
+        for k in range(1, len(p) + 1):
+            if p[:k] not in out:
+                out.append(p[:k])
+
+    def go(x):
+        if not isinstance(x, list) or not x:
+            return
+        if x[0] == 'user' and len(x) == 2:
+            add(list(x[1]))
+        elif x[0] == 'inst' and len(x) == 3:
+            add(list(x[1]))
+        elif x[0] == 'fwd' and len(x) == 2:
+            c = dict((n, cl) for n, cl in CTX).get(x[1])
+            if isinstance(c, list):
+                add(list(c[1]))
+        else:
+            for y in x:
+                go(y)
+    for t in terms:
+        go(t)
+    return out
+
+
+def gen_class_deco(rng, names=None, paths=None):
+    """for the user classes of the case: the name each is given and the attribute annotations it carries"""
+    names = names or class_names()
+    paths = USER_PATHS if paths is None else paths
+    picked = []
+    while len(picked) < len(paths):        # distinct names (the pool may list a name several times: weights)
+        nm = rng.choice(names)
+        if nm not in picked:
+            picked.append(nm)
+    deco = []
+    for p, nm in zip(paths, picked):
+        d = {}
+        if rng.random() < 0.7:
+            d['name'] = nm
+        if rng.random() < 0.6:
+            d['attrs'] = [['a%d' % i, rng.choice(ATTR_ANNS)] for i in range(rng.choice([1, 1, 2, 3]))]
+        if d:
+            deco.append([p, d])
+    return deco
